@@ -101,6 +101,11 @@ func ZZVerifC05Roundtrip() {
 	c, tagLen := zzCipher(nd.Choose("cipher", 2))
 	secret := nd.BytesUpTo("secret", 1)
 	salt := nd.BytesUpTo("salt", 1)
+	if nd.Bool("long-secret") {
+		// a pass phrase longer than a digest (the key material then has room
+		// for a digest behind or in place of it)
+		secret = append(secret, []byte("0123456789abcdef0123456789abcdef0123")...)
+	}
 	hostOnly := nd.Choose("hostonly", 2) == 1
 	// the settings are handed over in caller-owned buffers (with spare
 	// capacity); the caller then reuses the secret buffer for a filespace with
@@ -293,4 +298,36 @@ func ZZVerifC05NamesTwin() {
 	nd.Assert((e1 == nil) == (e2 == nil), "C05/names-twin-same-verdict")
 	nd.Assert(zzNames(enc, ".", 2) == zzNames(twin, ".", 2), "C05/names-twin-same-tree")
 	nd.Reach("C05/names-twin-end")
+}
+
+// ZZVerifC05Reuse: one filespace object keeps working with the same key
+// however often it is used, whatever the length of the pass phrase (shorter
+// or longer than a digest, in a buffer with or without spare capacity): it
+// writes two files and reads the first one itself, a twin with the same
+// settings reads the second one, a child view of it reads and writes too.
+func ZZVerifC05Reuse() {
+	base, _ := memfs.NewFilespace()
+	c, _ := zzCipher(nd.Choose("cipher", 2))
+	secret := []byte("k")
+	switch nd.Choose("secret-length", 3) {
+	case 1:
+		secret = []byte("0123456789abcdefg") // 17 bytes
+	case 2:
+		secret = []byte("0123456789abcdef0123456789abcdef01234") // longer than a digest
+	}
+	salt := []byte("s")
+	buf := make([]byte, len(secret), len(secret)+nd.Choose("spare", 2)*40)
+	copy(buf, secret)
+	enc := zzEnc(base, buf, salt, false, c)
+	twin := zzEnc(base, append([]byte{}, secret...), salt, false, c)
+	wstream := nd.Choose("stream", 2) == 1
+	rstream := wstream
+	pt := []byte("ab")
+	zzWrite(enc, "f", pt, wstream)
+	zzWrite(enc, "d/g", pt, wstream)
+	got, ok := zzRead(enc, "f", rstream)
+	nd.Assert(ok && bytes.Equal(got, pt), "C05/reuse-own-first-file")
+	got, ok = zzRead(twin, "d/g", rstream)
+	nd.Assert(ok && bytes.Equal(got, pt), "C05/reuse-twin-reads-second-file")
+	nd.Reach("C05/reuse-end")
 }
